@@ -21,7 +21,7 @@ RULE = (
     "activity x logging configuration; hash seed unset; hash seed 1) and all digests must equal the baseline. evaluations = seeded calls "
     "compared with their baseline; distinct_nontrivial = distinct (cell, algorithm, prelude, logging configuration / hash seed) tuples"
 )
-REQUIRED = {"calls_compared": 90, "logging_configs_compared": 20, "dirty_history_compared": 30, "hashseed_compared": 16, "fit_cases": 5, "personalize_cases": 3, "reused_settings_compared": 4, "simulate_cases_table_driven": 1, "scipy_cases_with_two_workers": 1}
+REQUIRED = {"calls_compared": 90, "logging_configs_compared": 20, "dirty_history_compared": 30, "hashseed_compared": 16, "fit_cases": 5, "personalize_cases": 3, "reused_settings_compared": 4, "simulate_cases_table_driven": 1, "scipy_cases_with_two_workers": 1, "cases_with_numpy_or_float_seed": 2}
 ASSUMPTIONS = [
     "bit-identity of sha256 digests over tensor bytes; matplotlib backend Agg; logs written under a per-case temporary directory",
     "logging grid restricted to what the settings class accepts (plot periodicity a multiple of save periodicity)",
@@ -108,6 +108,12 @@ def run_shard(spec, ctx):
         ctx.count(f"seed_class_{'zero' if seed_call == 0 else 'other'}")
         base_job = {"cell": list(cell), "cohort_seed": int(rng.integers(1 << 30)), "what": what, "seed": seed_call, "settings": settings, "tmp": tmp}
         case = {"index": i, "cell": list(map(str, cell)), "what": what, "settings": settings, "seed": seed_call}
+        if seed_call < 2 ** 31 - 1 and (spec["k"] + i) % 3 == 0:
+            base_job["seed_type"] = case["seed_type"] = ("np.int64", "float", "np.int32")[(spec["k"] // 3 + i) % 3]
+            ctx.count("cases_with_numpy_or_float_seed")
+        if what in ("mean_posterior", "mode_posterior") and (spec["k"] + i) % 2:
+            base_job["same_size"] = case["personalised_cohort_has_the_training_size"] = True
+            ctx.count("personalize_cases_on_a_cohort_of_the_training_size")
         if what == "simulate":
             base_job["sim_design"] = case["sim_design"] = ("random", "table")[(spec["k"] + i) % 2]
             if base_job["sim_design"] == "table":
